@@ -1,5 +1,6 @@
 import Vflow.Proofs.RoundIpfix
 import Vflow.Proofs.HeaderLayouts
+import Vflow.Proofs.Interpret
 import Vflow.Gen.Sites
 import Vflow.Spec.Sites
 /-!
@@ -12,9 +13,16 @@ scope fields first), record loop, set, message.
 
 Preconditions (the Boolean predicates `Wire.Ipfix.wf…`, all decidable; see `Spec/Wire.lean`):
 * every specifier of the template is in the information model (`lookupElem ent id = some …`);
-* the length 65535 (variable length) only on string / octetArray elements, the value then carries a
-  1-octet length prefix (< 255 octets) or the 3-octet prefix 255 + u16 (any length < 65536, also allowed
-  for short values); every other specifier length is a fixed length and the value has exactly it;
+* the length 65535 announces a variable-length field for an element of ANY type (RFC 7011 §7; RFC 6313 structured
+  data 291–293 is always sent so), the value then carries a 1-octet length prefix (< 255 octets) or the 3-octet
+  prefix 255 + u16 (any length < 65536, also allowed for short values); every other specifier length is a fixed
+  length and the value has exactly it.  Until the F23 repair this read "65535 only on string / octetArray elements":
+  a hypothesis read off `getDataLength`, not off the RFC — on every other element the decoder tried to read 65535
+  octets and the whole message was lost (`f23_repaired`);
+* no hypothesis on field lengths versus the element's type: the reported value is `interpret octets type` for every
+  length, and for the integer types that is the RFC's value of ALL the field's octets whenever the field is at least
+  as long as the type and at most 8 octets (`unsigned_field_value`, `signed_field_value`; F24: before the repair the
+  leading octets of the type's size were read, `f24_repaired`), the raw octets otherwise (`field_raw`);
 * every data record has a positive length on the wire (a record of no octets cannot be told from the end
   of the set; the decoder reports `zero-length data record`, F2) — the former "longer than 4 octets"
   (finding K2) is gone since the padding repair: `k2_repaired`;
@@ -237,6 +245,99 @@ next specifier.  Malformed input, decoded without a crash (C01); recorded here b
 hypothesis, and run against the real decoder by the `ipfix` correspondence (corpus/C03/ipfix--enterprise-id0.txt). -/
 example : (Ipfix.readSpec ⟨[0x80, 0x00, 0x00, 0x04, 0x00, 0x00, 0x27, 0x0f], 0⟩).1 = .ok ⟨32768, 4, 0⟩ := by rfl
 example : (Ipfix.readSpec ⟨[0x80, 0x01, 0x00, 0x04, 0x00, 0x00, 0x27, 0x0f], 0⟩).1 = .ok ⟨1, 4, 9999⟩ := by rfl
+
+/-! ## Repaired findings F23 (the variable-length marker was honoured only for string / octetArray elements) and F24
+(an integer field longer than its type decoded to its leading octets) -/
+
+/-- **C03 (value of an unsigned field)**: what the round trips report for an unsigned8 … unsigned64 element sent in
+`k ≤ n ≤ 8` octets (`k` the type's size: full-size, or over-long as NetFlow v9 exporters and mediators send them) is
+the element id, the enterprise number and the number whose network-byte-order representation ALL `n` octets are
+(`Wire.unsignedValue`, written from RFC 7011 §6.1.1 without reference to `interpret`).  False before the F24 repair:
+samplerId (unsigned8) in the two octets `00 07` was reported as 0. -/
+theorem unsigned_field_value (s : Spec) (v : Bytes) (fid ty k : Nat)
+    (hl : lookupElem s.ent s.id = some (fid, ty)) (ht : uintSize? ty = some k)
+    (hk : k ≤ v.length) (h8 : v.length ≤ 8) :
+    (expectedField s v).id = fid ∧ (expectedField s v).ent = s.ent ∧
+    intOf (expectedField s v).val = some (unsignedValue v : Int) :=
+  Interp.expected_unsigned s v fid ty k hl ht hk h8
+
+/-- **C03 (value of a signed field)**: signed8 … signed64 likewise, two's complement over all `8·n` bits (RFC 7011 §6.1.2) -/
+theorem signed_field_value (s : Spec) (v : Bytes) (fid ty k : Nat)
+    (hl : lookupElem s.ent s.id = some (fid, ty)) (ht : intSize? ty = some k)
+    (hk : k ≤ v.length) (h8 : v.length ≤ 8) :
+    (expectedField s v).id = fid ∧ (expectedField s v).ent = s.ent ∧
+    intOf (expectedField s v).val = some (signedValue v) :=
+  Interp.expected_signed s v fid ty k hl ht hk h8
+
+/-- the Go type of an integer value: that of the element's size for a full-size field, 64 bits for a longer one -/
+theorem integer_field_kind (b : Bytes) (t k : Nat) (hk : k ≤ b.length) (h8 : b.length ≤ 8) :
+    (uintSize? t = some k → (interpret b t).kind = (if b.length = k then "u" ++ toString (8 * k) else "u64")) ∧
+    (intSize? t = some k → (interpret b t).kind = (if b.length = k then "i" ++ toString (8 * k) else "i64")) :=
+  ⟨fun ht => (Interp.interpret_unsigned b t k ht hk h8).2, fun ht => (Interp.interpret_signed b t k ht hk h8).2⟩
+
+/-- **C03 ("raw octets when the field is encoded shorter than the type's size")**, and an integer field of more than
+8 octets, which no 64-bit value can hold -/
+theorem field_raw (s : Spec) (v : Bytes) (fid ty : Nat)
+    (hl : lookupElem s.ent s.id = some (fid, ty))
+    (h : v.length < minLen ty ∨ (((uintSize? ty).isSome ∨ (intSize? ty).isSome) ∧ 8 < v.length)) :
+    expectedField s v = ⟨fid, s.ent, .raw v⟩ :=
+  Interp.expected_raw s v fid ty hl h
+
+/-- template 256: two IPv4 addresses; template 257: an address and a basicList (291, RFC 6313: always variable length);
+template 258: ingressInterface (unsigned32) announced as variable length, and an address -/
+def f23TplA : Template := ⟨256, 2, 0, [], [⟨8, 4, 0⟩, ⟨12, 4, 0⟩]⟩
+def f23TplB : Template := ⟨257, 2, 0, [], [⟨8, 4, 0⟩, ⟨291, 65535, 0⟩]⟩
+def f23TplC : Template := ⟨258, 2, 0, [], [⟨10, 65535, 0⟩, ⟨8, 4, 0⟩]⟩
+/-- the witness of `corpus/C03/ipfix-wf--F23-variable-length-any-type.txt` (its first message, plus the second one's
+template and record) -/
+def f23Msg : Wire.Ipfix.Msg :=
+  { exportTime := 0, seq := 1, domain := 0,
+    sets := [.tpl [f23TplA, f23TplB, f23TplC] [],
+             .data f23TplA [[⟨[10,0,0,1], false⟩, ⟨[10,0,0,2], false⟩]] [],
+             .data f23TplB [[⟨[10,0,0,3], false⟩, ⟨[0xaa,0xbb,0xcc], false⟩]] [],
+             .data f23TplC [[⟨[0,0,0,5], false⟩, ⟨[10,0,0,4], false⟩], [⟨[0,5], true⟩, ⟨[10,0,0,5], false⟩]] []] }
+
+set_option maxRecDepth 100000 in
+/-- **F23 repaired**: before the repair the data set of template 257 (and of 258) made `Decode` return
+`(nil, "can not read the data")` — the record of template 256 in front of it was lost too — and the old `wfField`
+excluded the message ("65535 only on string / octetArray").  Now it is well-formed and decodes completely: the
+basicList as its octets (the collector does not interpret structured data), the variable-length unsigned32 as the
+`uint32` 5 when sent in 4 octets and as its 2 octets when sent shorter than the type. -/
+theorem f23_repaired :
+    Wire.Ipfix.wfMsg exAddr [] f23Msg = true ∧
+    (Ipfix.decode [] exAddr (Wire.Ipfix.encodeMsg f23Msg)).1 =
+      .ok (Wire.Ipfix.expectedHdr f23Msg,
+           [[⟨8, 0, .ip [10,0,0,1]⟩, ⟨12, 0, .ip [10,0,0,2]⟩],
+            [⟨8, 0, .ip [10,0,0,3]⟩, ⟨291, 0, .raw [0xaa,0xbb,0xcc]⟩],
+            [⟨10, 0, .u32 5⟩, ⟨8, 0, .ip [10,0,0,4]⟩], [⟨10, 0, .raw [0,5]⟩, ⟨8, 0, .ip [10,0,0,5]⟩]], []) := by
+  refine ⟨by decide, by rfl⟩
+
+/-- samplerId (48, unsigned8) announced with 2 octets, ingressInterface (10, unsigned32) with 8, and an address -/
+def f24Tpl : Template := ⟨256, 3, 0, [], [⟨48, 2, 0⟩, ⟨10, 8, 0⟩, ⟨8, 4, 0⟩]⟩
+def f24Msg : Wire.Ipfix.Msg :=
+  { exportTime := 0, seq := 1, domain := 0,
+    sets := [.tpl [f24Tpl] [],
+             .data f24Tpl [[⟨[0,7], false⟩, ⟨[0,0,0,0,0,0,0,5], false⟩, ⟨[10,0,0,1], false⟩],
+                           [⟨[1,0], false⟩, ⟨[255,255,255,255,255,255,255,255], false⟩, ⟨[10,0,0,2], false⟩]] []] }
+
+set_option maxRecDepth 100000 in
+/-- **F24 repaired** (`corpus/C03/ipfix-wf--F24-overlong-integers.txt`): before the repair the first record came back as
+`uint8(0)`, `uint32(0)` — the leading octets — and the second as `uint8(1)`, `uint32(4294967295)`. -/
+theorem f24_repaired :
+    Wire.Ipfix.wfMsg exAddr [] f24Msg = true ∧
+    (Ipfix.decode [] exAddr (Wire.Ipfix.encodeMsg f24Msg)).1 =
+      .ok (Wire.Ipfix.expectedHdr f24Msg,
+           [[⟨48, 0, .u64 7⟩, ⟨10, 0, .u64 5⟩, ⟨8, 0, .ip [10,0,0,1]⟩],
+            [⟨48, 0, .u64 256⟩, ⟨10, 0, .u64 18446744073709551615⟩, ⟨8, 0, .ip [10,0,0,2]⟩]], []) := by
+  refine ⟨by decide, by rfl⟩
+
+/-- the values of `interpret` around the sizes, evaluated: unsigned16 in 1 (raw), 2 (`uint16`), 3 and 8 (`uint64`), 9
+octets (raw); signed8 in 2 octets `ff fe` = −2 and signed32 in 5 octets `80 00 00 00 00` = −2^39 (`int64`, sign
+extended from the field's own width); the RFC values computed independently -/
+example : interpret [7] 2 = .raw [7] ∧ interpret [1,2] 2 = .u16 258 ∧ interpret [0,1,2] 2 = .u64 258 ∧
+    interpret [1,0,0,0,0,0,0,0] 2 = .u64 72057594037927936 ∧ interpret [0,0,0,0,0,0,0,0,7] 2 = .raw [0,0,0,0,0,0,0,0,7] ∧
+    interpret [255,254] 5 = .i64 (-2) ∧ interpret [128,0,0,0,0] 7 = .i64 (-549755813888) ∧
+    signedValue [255,254] = -2 ∧ signedValue [128,0,0,0,0] = -549755813888 ∧ unsignedValue [0,1,2] = 258 := by decide
 
 /-! ## Tie: the fixed-layout readers of the model read the layouts REGENERATED from the decoder source
 (`Gen.Layouts.*`, re-extracted from the `unmarshal` chains on every run; proofs in `Proofs/HeaderLayouts.lean`) -/
